@@ -251,7 +251,17 @@ func wideCalls(r *rand.Rand) []encCall {
 			put(names[i])
 		}
 	}
-	return append(calls, mk("}", ""), mk("null", ""))
+	calls = append(calls, mk("}", ""))
+	// a sibling object (or the next top-level value) in the same namespace slot, using names of
+	// the first one again: fine, each object has its own names
+	if r.IntN(2) == 0 {
+		calls = append(calls, mk("{", ""))
+		for _, i := range []int{n - 1, r.IntN(n), 0} {
+			calls = append(calls, mk("str", names[i]), mk("null", ""))
+		}
+		calls = append(calls, mk("}", ""))
+	}
+	return append(calls, mk("null", ""))
 }
 
 type encRunner struct {
